@@ -17,6 +17,7 @@ from mc.engine import ok, bad, unspecified
 from mc.common import call, Raised, DimArray, py, same_scalar, same_list
 
 ID = "C12"
+VARIANT_SWEEP = True      # thorough tier: every case on every history variant of its array (see mc/domains.py VSHIFT)
 TITLE = "stack / concatenate join without misaligning"
 RULE = ("all lists (and dicts) of 1-3 (thorough 4) arrays over the same set of dimensions (2-D and 3-D, SQUARE shapes, dims in same or "
         "reversed / rotated order), per-array variant of the secondary axes in {equal, permuted, overlapping, disjoint, int-vs-float equal} x "
